@@ -8,6 +8,7 @@ CONSTANTS
   Outif <- OutifPinned
   TIE = FALSE
   ORACLE = TRUE
+  BigCases <- BigNone
 INVARIANT WalkInv
 INVARIANT BoxInv
 INVARIANT Emit
